@@ -1,5 +1,5 @@
 (* C19 — Written font files read back unchanged.  Property theorems only. *)
-From TV Require Import Model.Sfnt Spec.Sfnt Proofs.Sfnt.
+From TV Require Import Model.Sfnt Spec.Sfnt Proofs.Sfnt Proofs.SfntRewrite.
 
 (* per-table checksums: the writer's checksum is the OpenType checksum of the zero-padded data *)
 Theorem checksum_correct : forall l, checksum l = checksum_spec l.
@@ -35,6 +35,21 @@ Theorem write_preserves_inputs : forall ts, snd (write_ttf_mem ts) = map snd ts.
 Proof. exact write_mem_preserves. Qed.
 Print Assumptions write_preserves_inputs.
 
+(* what a client reads back (every directory tag with its RawTable bytes: reread) is the table list it wrote,
+   whole and in order - the round trip as one equation on the table list *)
+Theorem reread_is_identity : forall ts,
+  wf_tables ts -> ssorted (map t_tag ts) ->
+  exists ld, new_loader (write_ttf ts) = Ok ld /\ reread (write_ttf ts) ld = ts.
+Proof. exact reread_written. Qed.
+Print Assumptions reread_is_identity.
+
+(* hence writing what was read back reproduces the file byte for byte: write . read . write = write *)
+Theorem rewrite_is_byte_identical : forall ts,
+  wf_tables ts -> ssorted (map t_tag ts) ->
+  exists ld, new_loader (write_ttf ts) = Ok ld /\ write_ttf (reread (write_ttf ts) ld) = write_ttf ts.
+Proof. exact rewrite_identical. Qed.
+Print Assumptions rewrite_is_byte_identical.
+
 (* non-vacuity: a table list with lengths 5 and 0 meets the hypotheses *)
 Example wf_example :
   let ts := [mkTable 1633837924 [1; 2; 3; 4; 5]; mkTable 1633837925 []] in
@@ -46,3 +61,9 @@ Proof.
   - cbn; lia.
   - cbn; lia.
 Qed.
+
+(* the read-back list of a concrete written file, computed: two tables, one of them empty *)
+Example reread_example :
+  let ts := [mkTable 1633837924 [1; 2; 3; 4; 5]; mkTable 1633837925 []] in
+  match new_loader (write_ttf ts) with Ok ld => reread (write_ttf ts) ld = ts | _ => False end.
+Proof. vm_compute. reflexivity. Qed.
